@@ -260,3 +260,81 @@ class Report:
             self.cov["traces_validated_against_impl"], self.cov["distinct_nontrivial"], viol,
             len(self.cov["known_findings_seen"]), time.time() - self.t0), flush=True)
         return 1 if viol else 0
+
+
+# ----------------------------------------------------------------------------------------------- trace validation
+
+def split_scenarios(path):
+    """ndjson trace file -> list of scenarios (each a list of raw lines starting with a Reset event)"""
+    scs, cur = [], []
+    with open(path) as f:
+        for line in f:
+            if not line.strip():
+                continue
+            if '"ev":"Reset"' in line and cur:
+                scs.append(cur)
+                cur = []
+            cur.append(line)
+    if cur:
+        scs.append(cur)
+    return scs
+
+
+_UNM = re.compile(r'<<"UNMATCHED", (\d+), (".*")>>')
+_LVAL = re.compile(r"^/\\ l = (\d+)", re.M)
+
+
+def validate_traces(module, cfg, scenarios, tag, timeout=900):
+    """Validate scenarios (lists of ndjson lines) against a trace spec. A rejection ends a TLC run, so the rejected
+    scenario is cut out at its Reset boundaries and the remainder is validated again until every scenario has been
+    examined. Returns (accepted_count, rejections, tlc_stats) ; rejection = {scenario, line_in_scenario, event|invariant}."""
+    wd = workdir("traces")
+    remaining = list(range(len(scenarios)))
+    rejections = []
+    stats = {"generated": 0, "distinct": 0, "runs": 0, "wall_s": 0.0}
+    while remaining:
+        path = os.path.join(wd, "%s-%d.ndjson" % (tag, os.getpid()))
+        starts = []
+        with open(path, "w") as f:
+            n = 1
+            for i in remaining:
+                starts.append((n, i))
+                for ln in scenarios[i]:
+                    f.write(ln if ln.endswith("\n") else ln + "\n")
+                    n += 1
+        res = tlc(module, cfg, workers=1, timeout=timeout, env={"TRACE": path}, dfs=True, coverage=False,
+                  expect_violation=True, tag="trace-" + tag, java_opts=["-Xmx4g"])
+        stats["generated"] += res["generated"]
+        stats["distinct"] += res["distinct"]
+        stats["runs"] += 1
+        stats["wall_s"] += res["wall_s"]
+        out = res["stdout"]
+        bad_line, what = None, None
+        m = _UNM.search(out)
+        if res["violated"] and res["violated"] != "Accepted":
+            ls = _LVAL.findall(out)
+            bad_line = int(ls[-1]) - 1 if ls else 1
+            what = {"invariant": res["violated"]}
+        elif m:
+            bad_line = int(m.group(1))
+            try:
+                what = {"event": json.loads(json.loads(m.group(2)))}
+            except Exception:
+                what = {"event": {"ev": "?", "raw": m.group(2)}}
+        elif res["rc"] != 0 or "Postcondition" in out and "is false" in out:
+            raise ToolError("trace validation failed without a diagnosis (rc=%s)\n%s" % (res["rc"], out[-2000:]))
+        try:
+            os.remove(path)
+        except OSError:
+            pass
+        if bad_line is None:
+            break
+        # which scenario contains bad_line
+        idx = 0
+        for k, (start, i) in enumerate(starts):
+            if start <= bad_line:
+                idx = k
+        start, sc = starts[idx]
+        rejections.append({"scenario": sc, "line_in_scenario": bad_line - start + 1, **what})
+        remaining = [i for i in remaining if i != sc]
+    return len(scenarios) - len(rejections), rejections, stats
